@@ -1005,7 +1005,9 @@ func (vm *VM) handleThrownError(frame *frame, err *RuntimeError) error {
 		vm.ip = handler.finally - 1
 	} else {
 		frame.errHandlers.pop()
-		return vm.throw(err, false)
+		// position of this frame is already in the trace, and vm.ip may
+		// still belong to the frame that threw the error.
+		return vm.throw(err, true)
 	}
 
 	if vm.sp >= handler.sp {
